@@ -108,7 +108,9 @@ pub struct Record {
     pub qual: Option<u16>,
     /// 0 = '.', 1 = PASS, 2 = q10
     pub filter: u8,
-    /// bit 0: DP=<int>, bit 1: AF=<float per ALT>, bit 2: DB flag
+    /// bit 0: INFO DP=<int>, bit 1: INFO AF=<float per ALT>, bit 2: INFO DB flag;
+    /// bit 3: FORMAT PL (three integers, the third above 127), bit 4: FORMAT FT (string),
+    /// bit 5: FORMAT AB (float)
     pub info: u8,
     pub fmt_dp: bool,
     pub fmt_gq: bool,
@@ -146,6 +148,22 @@ impl Record {
             r.push(['C', 'G', 'T', 'A'][i % 4]);
         }
         r
+    }
+
+    /// FORMAT PL of sample i: three integers, the last one beyond the int8 range
+    pub fn pl_of(&self, i: usize) -> [i32; 3] {
+        let b = ((i as u64 * 13 + self.pos) % 90) as i32;
+        [0, b, 130 + 3 * b]
+    }
+
+    /// FORMAT FT of sample i
+    pub fn ft_of(&self, i: usize) -> &'static str {
+        ["PASS", "lowQ", "q10;lowQ", "PASS"][(i + self.pos as usize) % 4]
+    }
+
+    /// FORMAT AB of sample i (exactly representable as f32)
+    pub fn ab_of(&self, i: usize) -> f32 {
+        [0.25f32, 0.5, 0.75, 0.125][(i * 3 + self.pos as usize) % 4]
     }
 
     /// Effective genotype of a sample (all-missing when the record has no GT key).
@@ -192,6 +210,15 @@ impl Record {
         if self.fmt_gq {
             keys.push("GQ");
         }
+        if self.info & 8 != 0 {
+            keys.push("XL");
+        }
+        if self.info & 16 != 0 {
+            keys.push("XF");
+        }
+        if self.info & 32 != 0 {
+            keys.push("XB");
+        }
         cols.push(keys.join(":"));
         for (i, gt) in self.gts.iter().enumerate() {
             let mut vals = Vec::new();
@@ -203,6 +230,16 @@ impl Record {
             }
             if self.fmt_gq {
                 vals.push(format!("{}", 20 + (i as u64 * 7 + self.pos) % 70));
+            }
+            if self.info & 8 != 0 {
+                let pl = self.pl_of(i);
+                vals.push(format!("{},{},{}", pl[0], pl[1], pl[2]));
+            }
+            if self.info & 16 != 0 {
+                vals.push(self.ft_of(i).to_string());
+            }
+            if self.info & 32 != 0 {
+                vals.push(self.ab_of(i).to_string());
             }
             cols.push(vals.join(":"));
         }
@@ -232,6 +269,9 @@ impl CallSet {
         h.push_str("##FORMAT=<ID=GT,Number=1,Type=String,Description=\"Genotype\">\n");
         h.push_str("##FORMAT=<ID=DP,Number=1,Type=Integer,Description=\"Read depth\">\n");
         h.push_str("##FORMAT=<ID=GQ,Number=1,Type=Integer,Description=\"Genotype quality\">\n");
+        h.push_str("##FORMAT=<ID=XL,Number=.,Type=Integer,Description=\"Phred-scaled likelihoods\">\n");
+        h.push_str("##FORMAT=<ID=XF,Number=1,Type=String,Description=\"Sample filter\">\n");
+        h.push_str("##FORMAT=<ID=XB,Number=1,Type=Float,Description=\"Allele balance\">\n");
         h.push_str("#CHROM\tPOS\tID\tREF\tALT\tQUAL\tFILTER\tINFO\tFORMAT");
         for s in &self.samples {
             h.push('\t');
@@ -341,7 +381,7 @@ impl Default for GenParams {
 fn record_strategy(p: &GenParams) -> impl Strategy<Value = Record> {
     (
         (any::<u16>(), prop_oneof![1 => Just(0u64), 19 => 1u64..=5000], prop_oneof![4 => Just(0u8), 24 => Just(1u8), 8 => Just(2u8), 4 => Just(3u8), 3 => 4u8..=11], prop::bool::weighted(0.1), any::<bool>(), prop_oneof![40 => Just(0u16), 4 => 1u16..=8, 1 => 100u16..=9000]),
-        (prop::option::weighted(0.5, 0u16..=999), 0u8..=2, 0u8..=7, any::<bool>(), prop::bool::weighted(0.3), any::<u8>(), any::<u8>()),
+        (prop::option::weighted(0.5, 0u16..=999), 0u8..=2, prop_oneof![3 => 0u8..=7, 1 => 8u8..=63], any::<bool>(), prop::bool::weighted(0.3), any::<u8>(), any::<u8>()),
         prop::collection::vec(gt_strategy(p.odd_ploidy, p.missing_weight, p.multi_weight), p.max_samples),
     )
         .prop_map({
@@ -639,6 +679,7 @@ mod tests {
         assert_eq!(Gt::parse("0/2").class(), GtClass::Multiallelic);
         assert_eq!(Gt::parse("1|1").class(), GtClass::Call(2));
         assert_eq!(Gt::parse("./2").class(), GtClass::MissingAndMultiallelic);
-        assert_eq!(Gt::parse(".").class(), GtClass::NotDiploid);
+        assert_eq!(Gt::parse(".").class(), GtClass::Missing);
+        assert_eq!(Gt::parse("0").class(), GtClass::NotDiploid);
     }
 }
